@@ -96,6 +96,12 @@ def provenance(space, seen=None):
     elif isinstance(of, Arr):
         for ax in of.axes:
             provenance(ax, seen)
+    # restriction by membership: x[np.isin(x, y)] (alone or as a conjunct) is restricted by everything that restricts y
+    if space.kind == 'Sub' and space.info.get('mask'):
+        for m in flatten_masks([space.info.get('mask')]):
+            if m[0] == 'isin' and len(m) > 4 and isinstance(m[4], Arr):
+                for ax in m[4].axes:
+                    provenance(ax, seen)
     return seen
 
 
